@@ -20,6 +20,17 @@ class _Unspec:
 UNSPEC = _Unspec()
 
 
+class _Now:
+    """The value of now(): only its ORDER relative to the (all past) stored and literal
+    date-times is pinned; its components are not (the engine's clock keeps running)."""
+
+    def __repr__(self):
+        return "NOW"
+
+
+NOW = _Now()
+
+
 class Flags(set):
     """Side channel: mechanisms the evaluation touched (used as finding triggers)."""
 
@@ -149,6 +160,8 @@ class Evaluator:
                 return UNSPEC
             if x is None:
                 return None
+            if x is NOW or any(i is NOW for i in items):
+                return UNSPEC if any(i is NOW for i in items) else False
             if any(self._eq(x, i) is True for i in items):
                 return True
             if any(i is None for i in items):
@@ -169,6 +182,15 @@ class Evaluator:
             return UNSPEC
         if a is None or b is None:
             return None
+        if a is NOW or b is NOW:
+            other = b if a is NOW else a
+            if not isinstance(other, dt.datetime):
+                return UNSPEC
+            # NOW is later than every stored / literal date-time of the workload
+            gt = {"eq": False, "ne": True, "lt": False, "le": False, "gt": True, "ge": True}[op]
+            if a is NOW:
+                return gt
+            return {"eq": False, "ne": True, "lt": True, "le": True, "gt": False, "ge": False}[op]
         if op == "eq":
             return self._eq(a, b)
         if op == "ne":
@@ -206,6 +228,8 @@ class Evaluator:
             return UNSPEC
         if a is None or b is None:
             return None
+        if a is NOW or b is NOW:
+            return UNSPEC
         if isinstance(a, (dt.datetime, dt.date)) and isinstance(b, dt.timedelta):
             if op == "add":
                 return a + b
@@ -244,7 +268,7 @@ class Evaluator:
     def call(self, t, row):
         name = t[1]
         args = [self.ev(a, row) for a in t[2]]
-        if any(a is UNSPEC for a in args):
+        if any(a is UNSPEC or a is NOW for a in args):
             return UNSPEC
         if name in ("contains", "startswith", "endswith"):
             s, p = args
@@ -329,7 +353,7 @@ class Evaluator:
             return d.time() if isinstance(d, dt.datetime) else UNSPEC
         if name == "now":
             self.flags.add("now")
-            return self.now
+            return NOW
         if name in ("round", "floor", "ceiling"):
             x = args[0]
             if x is None:
